@@ -648,6 +648,11 @@ class ParsedObject:
 
 
 def _hash(value):
+    # A plain tuple is always hashed item by item, so that it hashes like an
+    # equal tuple that has an unhashable item.
+    if type(value) is tuple:
+        return hash(tuple([_hash(item) for item in value]))
+
     try:
         return hash(value)
     except TypeError:
@@ -661,9 +666,14 @@ def _hash(value):
             for pair in value.items():
                 result ^= _hash(pair)
             return result
+        elif isinstance(value, set):
+            # Hash like the frozenset that it is equal to.
+            return hash(frozenset(value))
+        elif isinstance(value, bytearray):
+            return hash(bytes(value))
         else:
-            # Any other unhashable value (a set, a bytearray, ...). Equal values
-            # have the same type, and "==" tells them apart.
+            # Any other unhashable value. All values of one type hash alike,
+            # and "==" tells them apart.
             return hash(type(value))
 
 
